@@ -21,8 +21,16 @@ type witness struct {
 	Move string `json:"move"`
 }
 
-// piece values of the exchange model (knight = bishop = 300; the king is never captured)
-var val = [7]int{0, 100, 300, 300, 500, 900, 10000}
+// piece values of the exchange model: the engine's own table (heur.PieceValues; on the current tree
+// 100/300/300/500/900) - the property fixes the capture-sequence model, not the values. The king is
+// never captured; its entry only has to exceed everything else.
+var val = func() (v [7]int) {
+	for i := 1; i <= 5; i++ {
+		v[i] = int(heur.PieceValues[i])
+	}
+	v[6] = 20 * v[5]
+	return
+}()
 
 type att struct {
 	sq int
@@ -154,7 +162,7 @@ func checkMove(r *ev.Run, lc *ev.Local, p *ref.Pos, b *board.Board, m ref.Move) 
 	for v := range S {
 		ths = append(ths, v-1, v, v+1)
 	}
-	for t := -2000; t <= 2000; t += 50 {
+	for t := -(2*val[5] + 200); t <= 2*val[5]+200; t += 50 {
 		ths = append(ths, t)
 	}
 	sort.Ints(ths)
